@@ -17,6 +17,21 @@ LEVELS = {
         "note": "trusted: hand-written model of validatePermutation tied by correspondence; Go map iteration modelled as an arbitrary list order",
         "technique": "Coq proof: decision procedure <-> declarative spec, for all inputs and all map iteration orders; differential correspondence",
     },
+    "C12": {
+        "text": "Coq theorems for all strings and replacement maps: the hand-written matcher accepts exactly the declarative token shape and at most one token per start position; Transform is characterised as leftmost, non-overlapping, single pass with replacement text never rescanned (transform_step), token-free strings unchanged, unknown dimension => failure. Field scope (command, label, plugins, env values, unknown fields; not key, env names, matrix, signature) by Tie theorems over the scope table regenerated from the interpolate methods. Tied to Go's regexp by exhaustive macro-symbol strings through InterpolateMatrixPermutation.",
+        "note": "trusted: Go regexp engine (modelled scanner tied by exhaustive small scope), translator for the scope table",
+        "technique": "Coq proof: scanner soundness/completeness/uniqueness + single-pass decomposition; generated-table Tie for field scope; exhaustive correspondence vs regexp",
+    },
+    "C15": {
+        "text": "Coq theorems over all key sets and type strings: type dispatch table, inference priority (first family with a key present wins, proved generically for every key set), extra keys / order / repetition irrelevant, unknown steps classified by the right sentinel and only when nothing matches, scalar table. The tables are regenerated from steps.go/step_scalar.go on every run and proved equal to the documented table (Tie). Correspondence enumerates the full 1024 x 13 table through Parse.",
+        "note": "trusted: translator (switch/case extraction); the downgrade of a mis-typed known step to UnknownStep is covered by C13, not here",
+        "technique": "Coq proof: generated table = spec table (Tie by computation) + generic priority lemma; exhaustive table correspondence",
+    },
+    "C18": {
+        "text": "Coq theorems for all keys (any algorithm name and key type strings): Validate accepts iff structurally valid, algorithm declared, signature algorithm, and (kty, alg) is one of the three approved pairs; oct / missing / non-signature rejected; LoadKey returns the first key with the requested id or the only key, always validated, and fails for ambiguous, absent, invalid. Allow-lists regenerated from validate.go and proved equal to the model's tables (Tie). Exhaustive correspondence over key kinds x every registered algorithm and small key sets through the real files.",
+        "note": "trusted: jwx (structural validation, algorithm classification, parsing, key generation, signatures) as model inputs",
+        "technique": "Coq proof: decision procedure <-> approved-pair spec; generated allow-list Tie; exhaustive correspondence",
+    },
 }
 
 REASONS_PENDING = "check not built yet in this revision (work in progress; see DESIGN.md §10 build order)"
